@@ -101,6 +101,16 @@ func genCase(t *rapid.T) Case {
 	}
 	episodes := rapid.IntRange(1, 3).Draw(t, "episodes")
 	for ep := 0; ep < episodes; ep++ {
+		if ep > 0 && len(c.Ops) > 0 && c.Ops[len(c.Ops)-1].Kind == "nextindex" && rapid.IntRange(0, 2).Draw(t, "carry") == 0 {
+			// the new round index goes on with a block of the earlier one (C = 3 selects it): quorums of the
+			// earlier index must not count here, and the commit of a block proposed in index k with the votes
+			// of index k+1 must verify
+			for _, k := range rapid.SampledFrom([][]int{{0, 1, 3}, {3}, {1, 3}, {0, 1}, {3, 1}}).Draw(t, "carrykinds") {
+				o := op("votes-until")
+				o.A, o.C, o.D = k, 3, 0
+				c.Ops = append(c.Ops, o)
+			}
+		}
 		// most episodes start with an honest proposal, so that there is something to commit
 		if rapid.IntRange(0, 4).Draw(t, "lead") > 0 {
 			o := op("propose")
@@ -365,7 +375,31 @@ func (w *world) knownBlocks() []*types.Block {
 	return out
 }
 
+// earlierBlocks are the blocks proposed in earlier round indexes of this round (the node keeps them
+// cached: a block locked in index k can be voted again, and committed, in index k+1).
+func (w *world) earlierBlocks() []*types.Block {
+	var ks []string
+	cur := fmt.Sprintf("%d/", w.index)
+	for k := range w.blocks {
+		if !strings.HasPrefix(k, cur) {
+			ks = append(ks, k)
+		}
+	}
+	sort.Strings(ks)
+	var out []*types.Block
+	for _, k := range ks {
+		out = append(out, w.blocks[k])
+	}
+	return out
+}
+
 func (w *world) pickBlock(c int) common.Hash {
+	if c%4 == 3 {
+		if eb := w.earlierBlocks(); len(eb) > 0 {
+			w.labels["vote-for-earlier-index-block"] = true
+			return eb[(c/4)%len(eb)].Hash()
+		}
+	}
 	bs := w.knownBlocks()
 	if len(bs) == 0 || c%7 == 6 {
 		return crypto3(byte(c)) // a block nobody proposed to this node
